@@ -209,3 +209,9 @@ Qed.
 (* ---- the rows of seed C11-r4-3 ---- *)
 Lemma seed_handoff_refuted : check seed_handoff_table = false /\ check fixed_handoff_table = true.
 Proof. split; vm_compute; reflexivity. Qed.
+
+(* ---- a borrowed parameter read by a goroutine the function does not wait for ---- *)
+Lemma lend_refuted : check lend_table = false /\ check lend_waited_table = true /\
+  why lend_waited_table (nth 0 (t_sites lend_waited_table) h_recv) (nth 1 (t_sites lend_waited_table) h_recv)
+    = Some (RWaitGroup "wg:wg@wrap.wrapper.Invoke@62"%string).
+Proof. repeat split; vm_compute; reflexivity. Qed.
